@@ -142,14 +142,20 @@ func (p *Path) FactOn(cond ssa.Value, before int) (bool, bool) {
 
 func normCond(v ssa.Value) (ssa.Value, bool) {
 	neg := false
-	for {
+	for i := 0; i < 16; i++ {
 		if u, ok := v.(*ssa.UnOp); ok && u.Op == token.NOT {
 			v = u.X
 			neg = !neg
 			continue
 		}
+		// a flag read back from the cell of a captured / address-taken local that is assigned once is that value
+		if s := strip(v, false); s != v {
+			v = s
+			continue
+		}
 		return v, neg
 	}
+	return v, neg
 }
 
 // curProg is the program being analysed (set by runRules); the path engine asks it which fields are immutable.
